@@ -357,7 +357,9 @@ EXTRA_TEXT = {
     'C06': ' Stateful programs (paused asynchronous action, paused / '
            'running sub-workflow, waits, retry delay, with-items) combine '
            'the duplicate with the operator commands that produce those '
-           'task states.',
+           'task states; every policy program of C08 without a timeout '
+           '(retries, waits, fail-on, with-items and sub-workflow tasks '
+           'under policies) with a result delivered twice.',
     'C07': ' n=2 scenarios also over the DefaultScheduler; failed '
            'sub-workflow items repaired from the inside under a concurrency '
            'limit.',
